@@ -63,13 +63,27 @@ class CoreGen(progs.ProgGen):
         r = self.rng
         return str(r.choice([0, 1, 2, 3, 4, 5, 7, 10, 12, 25]))
 
+    def string(self):
+        """a string literal of one of the kinds the core covers: `...`, two-character, character, compressed"""
+        r = self.rng
+        k = r.randrange(10)
+        if k < 5:
+            return "`" + r.choice(["ab", "a b", "", "0", "abcab", "Hello", "x", "12", "a-b", "el", "ab"]) + "`"
+        if k < 7:
+            return "‛" + r.choice(["ab", "a ", "0b", "Xy"])
+        if k < 9:
+            return "\\" + r.choice(["a", " ", "0", "Z", "-"])
+        return "«" + r.choice(["ƛ", "a", "ab", "λ¬"]) + "«"
+
     def atom(self, indef, pure):
         r = self.rng
         x = r.random()
         if self.exit_ctx is not None and x < 0.07:
             return self.exit_piece()
-        if x < 0.30:
+        if x < 0.24:
             return self.num() + " "
+        if x < 0.32:
+            return self.string()
         if x < 0.74:
             return r.choice(PURE_ELEMENTS)
         if x < 0.82 and not pure:
@@ -366,6 +380,12 @@ SEEDS = [
     "3(0{:n<|›},)", "⟨2|4⟩ƛ0{:n<|›};", "3 λ0{:n<|›};†", "2(3(0{:n<|:,›}))", "4 '0{:n<|›}2<;", "3(n λ0{:n<|›};†,)", "3(1{:n=¬|›},)",
     "4 3 ~λ2|_;", "4 3 ~λ2|+_;", "3(4 n ~λ2|_;,)", "4 3 ~λ2|$_;", "1 2 3 ~λ3|__;", "4 3 ~λ2|_λ›;†;", "4 3 &λ2|_;¥", "4 3 ₌λ2|_;λ2|+_;", "4 3 ₍λ2|_;λ1|_;",
     "⟨1|2|3⟩ 5 vλ2|_;", "⟨1|2|3⟩ ƒλ2|_;", "⟨1|2|3⟩ ɖλ2|$_;", "1 4 3 ßλ2|_;", "⟨4|5⟩ ~λ1|_;", "4 3 ~λ2|W;", "4 3 ~λ2|;",
+    "`ab`", "`a b`,", "\\a", "‛ab", "«ƛ«", "«ab«", "`ab` `c`+", "`ab` 3*", "3 `ab`*", "3 `ab`-", "`ab` 2-", "`abcab` `ab`-", "`hello` `el`*", "`aB`N",
+    "`a b`›", "`ab`‹", "`ab`d", "``¬", "`a`¬", "`0`[1|2]", "``[1|2]", "`ab`(n,)", "`ab`L", "`ab`h", "``h", "`ab`t", "``t", "`ab`f", "`ab`Ṙ", "`ab`∑",
+    "``∑", "`ab` 1\"", "1 `2`=", "`2` 2=", "`a` `b`<", "2 `10`<", "`b` `a`>", "`ab` 2J", "2 `ab`J", "`ab` `cd`J", "⟨1⟩ `ab`J", "`ab`ƛd;", "`ab`w", "`ab`W",
+    "`ab`…", "`ab`£¥", "`ab` 1 `c` W", "⟨`a`|`b`⟩", "⟨`a`|⟨`b`|1⟩⟩,", "`abc`'`b`=¬;", "`cab`µ`b`=;", "`ab` `cd` v+", "`ab`ƒ+", "`abc`ɖ+", "`ab`{:|:,t}",
+    "`ab`:[`yes`|`no`]", "1 `a`+ 2+", "⟨1|`a`⟩ 2+", "⟨`a`|`b`⟩ `c`+", "`ab`→a ←a ←a+", "@f:p|←p `!`+;`hi`@f;", "`ab` λ`c`+;†", "`ab`M", "2 `ab`M", "`ab` 3 ~+",
+    "`a` 3(:+),", "`ab`?+", "`abc` ‛bc-", "`a` `a`=[`same`|`diff`]", "`ab`!", "`ab` `ab` `a`^W", "`a`\\b+", "`ab`Ṙ`ab`=",
     "⟨1|2|3⟩ ƒλn∑;", "⟨1|2|3⟩ ɖ‡n∑", "3 λ2|n;M", "3 λ2|n‹;F", "⟨3|1|2⟩ λ2|nN;ṡ", "⟨1|2|3⟩ ƒλ3|n∑;", "4 λ0|n;M", "1 2 &λ2|n;¥",
     "@f:1|(⟨1|2|3⟩ƒλn∑;,);2 @f;", "⟨1|2|3⟩ ƒ⁽n",
     "5(n3=[X]n,)", "5(n3=[x]n,)", "5(n3=[x]n,)n", "3(n2=[x])n W", "3(2(n1=[x])n,)", "3(2(n2=[X])n,)n", "4 λ3(n2=[x])n;†", "2(3(n2=[x]n,)n,)n",
@@ -399,6 +419,8 @@ def enc_value(v):
     """canonical value of vlib.runprog -> Coq `value`; None when it is outside int/list/function"""
     if v[0] == "int":
         return f"VInt ({v[1]})"
+    if v[0] == "str":
+        return f"VStr {V.cstr(v[1])}"
     if v[0] == "list":
         parts = [enc_value(x) for x in v[1]]
         if any(p is None for p in parts):
@@ -417,12 +439,19 @@ def truncated(v):
 
 
 def enc_input(s):
+    """what helpers.vy_eval makes of a command-line input: a Python literal (number, list, quoted string), or,
+    when evaluating it fails (a bare word), the text itself"""
     import ast
-    v = ast.literal_eval(s)
+    try:
+        v = ast.literal_eval(s)
+    except (ValueError, SyntaxError):
+        v = s
 
     def go(x):
         if isinstance(x, int):
             return f"VInt ({x})"
+        if isinstance(x, str):
+            return f"VStr {V.cstr(x)}"
         return "VList [" + "; ".join(go(y) for y in x) + "]"
     return go(v)
 
@@ -584,11 +613,14 @@ def documented_expectations(env):
 # ----------------------------------------------------------------------------------------------
 # the check
 # ----------------------------------------------------------------------------------------------
-INPUT_SETS = [[], ["3"], ["2", "5"], ["[1,2,3]"], ["4", "[5,6]"], ["0"], ["7", "1", "2"], ["[[1,2],3]", "2"]]
+INPUT_SETS = [[], ["3"], ["2", "5"], ["[1,2,3]"], ["4", "[5,6]"], ["0"], ["7", "1", "2"], ["[[1,2],3]", "2"],
+              ['"ab"'], ['"a b"', "2"], ["hello", '"0"'], ['""', "3"], ['["ab", 1]']]
 STRUCT_CHARS = {"[": "if", "(": "for", "{": "while", "λ": "lambda", "ƛ": "map-lambda", "'": "filter-lambda", "⟨": "list",
                 "@": "function", "v": "mod-v", "&": "mod-&", "~": "mod-~", "ß": "mod-ß", "ƒ": "mod-ƒ", "ɖ": "mod-ɖ", "₌": "mod-₌",
-                "₍": "mod-₍", "X": "X(break/return)", "x": "x(continue/recurse/print)", "⁽": "short-1", "‡": "short-2", "≬": "short-3", "→": "var-set", "←": "var-get", "†": "call"}
-MEANING = {0: "agree", 1: "DIFFER", 2: "outside-domain(EStuck)", 3: "out-of-fuel", 4: "guard(ENotCore)", 5: "not-core", 6: "no-parse"}
+                "₍": "mod-₍", "`": "string-literal", "‛": "two-char-string", "\\": "char-literal", "«": "compressed-string", "X": "X(break/return)", "x": "x(continue/recurse/print)", "⁽": "short-1", "‡": "short-2", "≬": "short-3", "→": "var-set", "←": "var-get", "†": "call"}
+MEANING = {0: "agree", 1: "DIFFER", 2: "outside-domain(EStuck)", 3: "out-of-fuel", 4: "guard(ENotCore)", 5: "not-core", 6: "no-parse",
+           7: "differ-in-back-quotes-only"}
+UNQUOTED_CLS = "C01:generated-lazy-list-prints-strings-unquoted"
 
 
 def build_items(env):
@@ -616,11 +648,12 @@ def build_items(env):
 
 
 def run(env):
-    env.rule = ("programs of the core grammar (generator CoreGen: number literals, the 37 core elements, variables, function definitions / "
+    env.rule = ("programs of the core grammar (generator CoreGen: number and string literals (`..`, two-character, character, compressed), the 37 core "
+                "elements with their number / string / list overloads, variables, function definitions / "
                 "calls with numeric / named / * parameters, if / for / while, lambdas λ ƛ ' µ and shorthands ⁽ ‡ ≬, list literals, modifiers "
                 "v & ~ ß ƒ ɖ ₌ ₍, early exits X / x where the core covers them (break / continue in loops through ifs, early return and "
                 "recursion in plain lambdas incl. recursive templates with a base case, x as a modifier operand, x at top level); nesting depth <= 3 quick, "
-                "<= 4 thorough) plus hand-written seeds; each run = program x input list (8 lists of small ints / int lists) x one of the nine "
+                "<= 4 thorough) plus hand-written seeds; each run = program x input list (13 lists of small ints / int lists / strings) x one of the nine "
                 "flag sets; compared: final stack (top popped by the implicit output), stdout, error class. (1) Machine.exec vs implementation "
                 "-> disagreement; (2) RefSem.eval vs implementation -> the property fails; (3) exact text of transpile(). Both models are "
                 "evaluated inside Coq (vm_compute). Non-trivial = the run agreed AND the program contains a structure or modifier; distinct "
@@ -680,6 +713,8 @@ def run(env):
         heavy += [cases[lo + a][0] for a, b, _ in sublogs]
     t_coq = time.time()
     dist = {}
+    registered = {k.get("class") for k in env.known} | {c for k in env.known for c in k.get("classes", [])}
+    unquoted = []
     differing = {}
     flags_seen = {}
     constructs = {}
@@ -699,6 +734,15 @@ def run(env):
             env.disagree("machine (Model/Machine.v) vs implementation", inp, "(model outcome differs; evaluate run_machine in Coq)", obs)
         elif m == 4:
             env.disagree("machine entered a function whose body is outside the core", inp, "ENotCore", obs)
+        if m == 7 or r == 7:
+            # LazyList.output prints the items it has ALREADY generated with vy_print (a string raw) and the others
+            # with vy_repr (back-quoted): the printed text of a list depends on whether it was looked at before
+            what = ("a lazy list whose items were generated before it is printed shows its string items without back-quotes "
+                    f"(LazyList.output: vy_print for cached items, vy_repr for the rest); observed {obs}")
+            # repaired in /repo (ed321f2): any occurrence now is a regression
+            env.fail(inp, what, cls=UNQUOTED_CLS)
+            if len(unquoted) < 5:
+                unquoted.append({"class": UNQUOTED_CLS, "input": inp, "observed": obs})
         if m == 1 or r == 1:
             differing[src] = differing.get(src, 0) + 1
         if r == 1:
@@ -727,6 +771,7 @@ def run(env):
     env.note("differing_programs", {"runs": sum(differing.values()), "distinct_programs": len(differing),
                                      "of_them_generated": sum(1 for s in differing if s not in seedset),
                                      "generated_examples": [s for s in differing if s not in seedset][:8]})
+    env.note("lazy_list_printed_with_unquoted_strings", unquoted)
     env.note("outcomes", dist)
     env.note("agreeing_runs_per_flag_set", flags_seen)
     env.note("agreeing_runs_per_construct", constructs)
@@ -741,7 +786,11 @@ def run(env):
     env.assume("lazy evaluation: maps / filters / vectorised calls are evaluated eagerly in the model; where that could be observed (a lazily "
                "applied body that prints, reads or writes register / variables / input, or function values among the arguments) and where a "
                "function value reaches arithmetic, a test or a printer, the model answers EStuck and the run is not compared (counted in outcomes)")
-    env.assume("integers and finite lists only (C13 covers the identification of finite lazy lists with lists); numbers below 10^40 when printed; "
+    env.assume("string overloads in the model: + (concatenation, number<->text), - (dashes, remove), * (repeat, ring translate), N (swapcase, ASCII), "
+               "› ‹ d ¬ = < > (text order by code point, number compared as its decimal text), J L h t f Ṙ ∑, M F ṡ v ƒ ɖ and for over the characters, "
+               "truthiness = non-empty, printing raw at top level and back-quoted inside lists; string literals with escapes or non-ASCII text, † on a "
+               "string (exec), F on two strings and J on two numbers are outside the model")
+    env.assume("integers, strings and finite lists only (C13 covers the identification of finite lazy lists with lists); numbers below 10^40 when printed; "
                "ranges up to 5000; stdin empty; fuel 60 nesting levels / while iterations, out-of-fuel runs are not compared")
     env.assume("a function value as the condition of an if / the iterable of a for is outside BOTH models (EStuck): Structures.md says it is called "
                "first, the implementation takes it as true / raises TypeError -- known finding C01-function-valued-condition, asserted on the "
